@@ -34,6 +34,7 @@ func (c03) Batches(tier string, seed uint64) []core.Batch {
 	b = append(b, spread("exh", 8, 0)...)
 	b = append(b, spread("rtrand", 8, tierN(tier, 12000, 60000))...)
 	b = append(b, core.Batch{Name: "corpus"}) // versions of this machine's dpkg database
+	b = append(b, core.Batch{Name: "volume", N: tierN(tier, 3_000_000, 30_000_000)}) // one case, one process: see volume.go
 	return append(b, conc(tierN(tier, 300, 2000), "grammar", "rtrand")...)
 }
 
@@ -41,7 +42,7 @@ func (c03) Mandatory(tier string) []string {
 	return []string{"shape:epoch", "shape:revision", "shape:hyphen-in-upstream", "shape:trailing-hyphen", "rt:UnmarshalText-does-not-retain-buffer", "shape:colon-in-upstream", "shape:whitespace-wrapped",
 		"invalid:epoch-non-numeric", "invalid:epoch-empty", "invalid:epoch-negative", "invalid:epoch-oversized", "invalid:embedded-space",
 		"invalid:nothing-after-colon", "invalid:first-char-non-digit", "invalid:bad-char-upstream", "invalid:bad-char-revision", "invalid:colon-in-revision",
-		"rt:String", "rt:MarshalControl", "rt:MarshalText", "rt:json", "rt-accepted-from-random", "rt-accepted-from-exhaustive"}
+		"rt:String", "rt:MarshalControl", "rt:MarshalText", "rt:json", "rt-accepted-from-random", "rt-accepted-from-exhaustive", "volume:versions-parsed-in-one-process"}
 }
 
 var wsWrap = []string{"", " ", "\t", "\n", " \t\n", "  ", "\r\n"}
@@ -52,6 +53,10 @@ func (p c03) RunBatch(t *core.T, b core.Batch) {
 	}
 	r := t.Rand(b.Name, fmt.Sprint(b.Arg))
 	switch b.Name {
+	case "volume":
+		in := volInput(r.U64(), b.N)
+		vc, _ := volDecode(in)
+		t.Case("volume", in, func(c *core.C) { volumeParse(c, t, vc, false) })
 	case "corpus":
 		vals := corpusFieldValues("Version")
 		if len(vals) == 0 {
@@ -351,6 +356,10 @@ func (c03) roundtrip(c *core.C, s, source string) {
 
 func (p c03) RunCase(t *core.T, kind string, input []byte) {
 	switch kind {
+	case "volume":
+		if vc, ok := volDecode(input); ok {
+			t.Case(kind, input, func(c *core.C) { volumeParse(c, t, vc, false) })
+		}
 	case "grammar":
 		parts := strings.SplitN(string(input), "\x1e", 2)
 		if len(parts) == 2 {
